@@ -42,6 +42,11 @@ def run_detect(df, thr, m):
     from bycycle.burst import detect_bursts_cycles
     if (len(df) + int(m)) % 2:
         df['is_burst'] = True          # the table was labelled before (e.g. by an earlier, looser thresholding): must not matter
+    ik = (len(df) * 2 + int(m)) % 3
+    if ik == 1:
+        df.index = range(4, 4 + len(df))                      # a slice of a longer table
+    elif ik == 2:
+        df.index = [(0, 1, 0, 2, 1, 0)[i % 6] for i in range(len(df))]      # concatenated tables: interior rows share the first / last label
     kw = dict(zip([f + '_threshold' for f in FEATS], thr))
     out = detect_bursts_cycles(df, min_n_cycles=m, **kw)
     return [bool(x) for x in out['is_burst'].to_numpy()]
@@ -161,6 +166,22 @@ class WordRegions:
                         if got != exp:
                             return VIOL({'kind': 'routing', 'word': w, 'centre': centre, 'threshold': f, 'value': repr(v)},
                                         'compute_features(%s_threshold=%r) labels != reference' % (f, v), expected=exp, observed=got, evals=nev)
+            # thresholds one floating-point step below / above a value of the table, routed through compute_features
+            hsh = sum(map(ord, w))
+            f = FEATS[hsh % 4]
+            vals = sorted({float(v) for v in feat[f] if v == v and 0 < float(v) < 1})
+            for v in vals[:2]:
+                for t in (np.nextafter(v, -1.0), np.nextafter(v, 2.0)):
+                    thr_b = dict(base)
+                    thr_b[f + '_threshold'] = float(t)
+                    dfb = compute_features(sig, 64, (6, 14), center_extrema=centre, threshold_kwargs=dict(thr_b))
+                    exp, _ = ref_labels_cycles(feat, thr_b, thr_b['min_n_cycles'])
+                    got = [bool(x) for x in dfb['is_burst'].to_numpy()]
+                    nev += 1
+                    if got != exp:
+                        return VIOL({'kind': 'routing', 'word': w, 'centre': centre, 'threshold': f, 'value': 'nextafter'},
+                                    'compute_features(%s_threshold=%r, one step from a table value) labels != reference' % (f, float(t)),
+                                    expected=exp, observed=got, evals=nev)
             grids = {f: region_grid(feat[f]) for f in FEATS}
             feats_only = df0.copy()
             feats_only['is_burst'] = True      # re-thresholding an already labelled table: old labels must not survive
